@@ -10,10 +10,12 @@ OBLIGATIONS = [
     (P + "load_safe", "for every type and every byte string (< 2^64 bytes): all read intervals inside the archive, cursor inside, result is a value or an archive_error"),
     (P + "load_safe_resume", "the same from any safe state (several objects in one archive, serialize() methods)"),
     (P + "primitives_safe", "next_chunk_size / read_chunk / read_chunk_as_string keep a safe state safe"),
+    (P + "load_ok_wellformed", "a successful load of any byte string returns a well-formed value (sizes, sorted unique sets/maps, sorted multisets, array lengths)"),
     (P + "sizeBad_exact", "the regenerated length test of next_chunk_size is exactly 'header+payload fit' (no over-read, no spurious rejection)"),
     (P + "prefix_bound_counterexample", "historical D1: the pre-fix bound accepts length 7 at ptr 0 in an 8-byte archive"),
     (P + "save_load_roundtrip", "for every type and well-formed value within the uint32 guard: load (save v) = v and the loader ends at eof"),
     (P + "save_load_roundtrip_framed", "the same at any position inside a larger archive"),
+    (P + "wrappers_roundtrip", "session/cache store_data then fetch_data returns the object, for any store with get (set k d) = d (C06/C07 law as hypothesis; wrapper shapes checked by the translator)"),
     (P + "string_chunk_truncates", "beyond the guard: write_chunk stores len mod 2^32, the string is read back truncated"),
     (P + "string_roundtrip_fails_beyond_guard", "a std::string of >= 2^32 bytes does not round-trip (why sizesFit is needed)"),
 ]
@@ -23,6 +25,9 @@ TYPES = ("B.L.s B.M.s.v4 B.p4 B.s C.s L.C.p4 L.L.s L.R.s L.X.p4.s L.s L.v2 M.P.p
          "M.s.M.p2.s M.s.p8 M.s.v4 P.L.s.S.p4 P.R.p1.R.M.s.p4 P.p4.s P.s.P.p1.v8 Q.L.s Q.p4 Q.s R.B.s R.L.s R.R.s R.p4 R.s "
          "S.L.s S.P.p2.s S.p4 S.p8 S.s S.v1 U.L.s U.s X.R.s.Q.P.p4.s X.p4.s X.s.X.v2.S.s d8 i4 p1 p2 p4 p8 s v1 v2 v4 v8 "
          "W.p4 W.s W.P.p1.s L.W.p2 N.p4.s N.s.v4 N.p1.W.s M.W.p1.s B.A3.s B.p12 B.A2.L.s X.p8.A2.S.s B.A1.M.s.p4").split()
+
+# the harness must not be able to take the machine down when a (mutated) loader loops or allocates without bound
+HARNESS_ENV = {"ASAN_OPTIONS": "detect_leaks=0:abort_on_error=0:allocator_may_return_null=1:hard_rss_limit_mb=3000:max_allocation_size_mb=2000"}
 
 POD = {"p1": 1, "p2": 2, "p4": 4, "p8": 8, "i4": 4, "d8": 8}
 VEC = {"v1": 1, "v2": 2, "v4": 4, "v8": 8}
@@ -58,7 +63,7 @@ def ty_of(name):
 
 # ---- value generation (python values: bytes | list | tuple | None/('some',v))
 def rbytes(rng, n):
-    return bytes(rng.randrange(256) for _ in range(n))
+    return rng.randbytes(n)
 
 
 def gen_str(rng, big):
@@ -274,7 +279,9 @@ def run_impl(c, hbin, cases):
     returns (outputs aligned with cases, crashes [(index, stderr)])"""
     outs, crashes, start = [], [], 0
     while start < len(cases) and len(crashes) < 12:
-        rc, o, err = c.run_lines(hbin, cases[start:], timeout=3000)
+        rc, o, err = c.run_lines(hbin, cases[start:], timeout=240 + len(cases) // 300, env=HARNESS_ENV)
+        if rc == 124:
+            err = "TIMEOUT: the harness did not finish (endless loop / unbounded work in the loader?)\n" + err
         outs.extend(o[:len(cases) - start])
         if start + len(o) >= len(cases):
             if rc != 0:
@@ -284,6 +291,8 @@ def run_impl(c, hbin, cases):
         crashes.append((k, err))
         outs.append("<crash>")
         start = k + 1
+        if rc == 124:        # do not wait for further time-outs
+            break
     while len(outs) < len(cases):
         outs.append("<not run>")
     return outs, crashes
@@ -293,7 +302,7 @@ def main():
     c = Check("C19")
     thorough = c.tier == "thorough"
     rng = c.rng
-    c.rule = ("cases = protocol lines for harness and model: save/rt/srt/ssave of recursively generated values over the %d type "
+    c.rule = ("cases = protocol lines for harness and model: save/rt/srt/ssave and cache/session store_data+fetch_data (crt/zrt) of recursively generated values over the %d type "
               "instantiations compiled into the harness (empty containers, duplicate and unsorted set/map input, NUL strings, null and "
               "non-null pointers, strings around 255/256/64Ki); load/sload of every truncation, every length-field mutation "
               "(L+-1..4, remaining+-1..4, wrap values such as 0xfffffffc and 2^32-ptr), count and pointer-flag mutations, bit flips, "
@@ -371,14 +380,14 @@ def main():
             tk = " ".join(toks(t, v))
             ntk = " ".join(toks(t, nv))
             arch = hexs0(py_save(t, nv))
-            for op in ("rt", "rt+", "save") + (("srt", "srt+", "ssave") if name in serializable else ()):
+            for op in ("rt", "rt+", "save") + (("srt", "srt+", "ssave", "crt", "zrt", "crt+", "zrt+") if name in serializable else ()):
                 if op.endswith("+") and i % 3:
                     continue
                 line = f"{op} {name} {tk}"
                 casesA.append(line)
                 if op in ("rt", "rt+"):
                     expect[line] = f"ok {ntk} eof=1"
-                elif op in ("srt", "srt+"):
+                elif op in ("srt", "srt+", "crt", "zrt", "crt+", "zrt+"):
                     expect[line] = f"ok {ntk}"
                 else:
                     expect[line] = arch
@@ -465,7 +474,7 @@ def main():
             continue
         w = cs.split()
         op = w[0].rstrip("+")
-        if op in ("rt", "srt", "save", "ssave"):
+        if op in ("rt", "srt", "crt", "zrt", "save", "ssave"):
             if cs in expect and o != expect[cs]:
                 bad.append((k, "round trip / serialization differs from the value (python oracle)"))
         elif op in ("load", "sload"):
@@ -495,7 +504,7 @@ def main():
         for (k, l), o in zip(jl, jout + ["<none>"] * (len(jl) - len(jout))):
             if o != "1":
                 bad.append((k, "Spec.loadOutputOk false on the implementation's result (cursor outside, ill-formed value, or consumed bytes are not the value's serialization)"))
-    c.extra_cov["judged_impl_outputs"] = len(jl) + sum(1 for cs in cases if cs.split(" ", 1)[0].rstrip("+") in ("rt", "srt", "save", "ssave", "ops"))
+    c.extra_cov["judged_impl_outputs"] = len(jl) + sum(1 for cs in cases if cs.split(" ", 1)[0].rstrip("+") in ("rt", "srt", "crt", "zrt", "save", "ssave", "ops"))
 
     for k, err in crashes:
         summ = [l.strip() for l in err.splitlines() if "SUMMARY" in l or "runtime error" in l or "ERROR: AddressSanitizer" in l]
